@@ -49,6 +49,15 @@ def main():
                     rc, mechs, dt, out = run_check(prop, tmp)
                     results.append((sid, prop, rc, dt, mechs[:2]))
                     print("%-28s %s rc=%d %.0fs %s" % (sid, prop, rc, dt, "; ".join(m[:110] for m in mechs[:2])), flush=True)
+                    # keep meta.json current (what DESIGN.md A.3 is generated from); a check that missed the change when it
+                    # was first vetted stays listed under missed_at_first
+                    was = meta.get("caught_by", {}).get(prop)
+                    if was is False and rc == 1 and prop not in meta.get("missed_at_first", []):
+                        meta.setdefault("missed_at_first", []).append(prop)
+                    if rc in (0, 1):
+                        meta.setdefault("caught_by", {})[prop] = rc == 1
+                        meta.setdefault("mechanisms_reported", {})[prop] = [m[:160] for m in mechs[:3]]
+                json.dump(meta, open(os.path.join(d, "meta.json"), "w"), indent=1)
             finally:
                 shutil.rmtree(tmp, ignore_errors=True)
         bad = [r for r in results if r[2] != 1]
